@@ -3,6 +3,8 @@
     Hand model of Go (trusted, exercised against the real toolchain by the correspondence):
     - operands of a call / composite literal / binary operator are evaluated left to right, then the
       call happens; [&&] and [||] evaluate their right operand only when needed;
+    - a keyed composite literal evaluates its operands in the order written and yields a struct whose fields
+      are laid out in the order of the type declaration;
     - a function literal captures its environment (all variables are immutable after [:=]);
     - a function body that ends without [return] yields no value ([GVUnit] here);
     - a type switch [switch x := (e).(type)] selects the first case whose type is the dynamic type of
@@ -24,7 +26,8 @@ Inductive gexpr :=
 | GBin (op:binop) (a b:gexpr)
 | GFunc (ps:list var) (body:list gstmt)         (* func (ps) T { body } *)
 | GCall (f:gexpr) (args:list gexpr)
-| GStructLit (tname:string) (fs:list (string * gexpr))   (* T{f: e, …}  (also T{e} for union cases) *)
+| GStructLit (tname:string) (decl:list string) (fs:list (string * gexpr))
+    (* T{f: e, …} as written (also T{e} for union cases); decl: the fields of [type T struct] in declaration order *)
 | GSliceLit (es:list gexpr)                     (* []T{e, …} *)
 | GSel (e:gexpr) (f:string)                     (* e.f *)
 with gstmt :=
@@ -159,9 +162,13 @@ Fixpoint geval (funcs:gfundefs) (vars:gvardefs) (n:nat) (env:genv) (e:gexpr) (t:
       doo fv, t0 <- geval funcs vars n env f t;
       doo vs, t1 <- gevals funcs vars n env args t0;
       gapply funcs vars n fv vs t1
-  | GStructLit tname fs =>
+  | GStructLit tname decl fs =>
+      (* operands in the order written; the struct value has the layout of the type declaration *)
       doo vs, t1 <- gevals funcs vars n env (map snd fs) t;
-      Done (GVStruct tname (combine (map fst fs) vs)) t1
+      match arrange decl (combine (map fst fs) vs) with
+      | Some gfs => Done (GVStruct tname gfs) t1
+      | None => Stuck "composite literal: missing field"
+      end
   | GSliceLit es => doo vs, t1 <- gevals funcs vars n env es t; Done (GVSlice vs) t1
   | GSel e f =>
       doo v, t1 <- geval funcs vars n env e t;
